@@ -31,7 +31,12 @@ use tonic_health::ServingStatus;
 use tower::util::BoxCloneService;
 
 /// "" (the server as a whole), a well-formed name (the health service's own: nothing is registered for it unless set), and a free-form one (health service names are arbitrary strings)
-pub const NAMES: [&str; 3] = ["", "grpc.health.v1.Health", "1st/pay-ments..v2 \u{e9}"];
+pub const NAMES: [&str; 3] = [
+    "",
+    "grpc.health.v1.Health",
+    // free-form and long (300 bytes): a name is a string, not an identifier, and no short one
+    "1st/pay-ments..v2 \u{e9} 0123456789012345678901234567890123456789012345678901234567890123456789012345678901234567890123456789012345678901234567890123456789012345678901234567890123456789012345678901234567890123456789012345678901234567890123456789012345678901234567890123456789012345678901234567890123456789",
+];
 pub const MAX_OPS: usize = 30;
 pub const MAX_WATCHERS: usize = 4;
 pub const STRESS_REPS: u64 = 12;
